@@ -612,7 +612,7 @@ def run(ctx):
     res = Result()
     res.rule = ("one evaluation = one call of a relabel_module function on one input and configuration; non-trivial = the graph has an edge "
                 "(and the permutation is not the identity / at least one label array is given); distinct by (function, adjacency matrix, all arguments, recorded random draws)")
-    drv = Driver()
+    drv = gu.RDriver()
     orb = gu.OrbitOracle(drv)
     rng = ctx.rng
     cache = {}
@@ -638,7 +638,7 @@ def run(ctx):
 
 
 def search(ctx, res, proof_broken):
-    drv = Driver()
+    drv = gu.RDriver()
     orb = gu.OrbitOracle(drv)
     cache = {}
     rng = ctx.rng
@@ -660,7 +660,7 @@ def replay(ctx, data):
     n = int(kv["n"])
     A = gu.adj_from_bits(kv["a"], n)
     res = Result()
-    drv = Driver()
+    drv = gu.RDriver()
     orb = gu.OrbitOracle(drv)
     try:
         if key.startswith("relabel:"):
